@@ -17,12 +17,13 @@ LEVEL_TEXT = ('Lean 4 theorems, for all shapes/targets/parities: pad (2-D and cu
               'edge normals under negation/mirroring, proved for the real angles n·pi/3 + phi; hex_ring(k) has 6k cells at cube '
               'distance k, pairwise distinct; a k-ring aperture has 1+3k(k+1) distinct cells minus the dropped numbers in range; for seg_gap > 0 '
               'two segments at distinct cells share no pixel (separating-axis argument over any ordered field, both orientations, with the '
-              'exact sin/cos tables of the edge normals proved over R). PARTIAL: border clearance and equal area are checked on the real '
-              'code only (no theorem); float rounding of the edge test is not modelled.')
+              'exact sin/cos tables of the edge normals proved over R) and, for pad >= 2, every segment pixel has row/column index in '
+              '[1, size-2] (clear of the border). PARTIAL: equal area up to edge sampling is checked on the real code only (no theorem); '
+              'float rounding of the edge test and of the ceil in the array size is not modelled.')
 LEVEL_NOTE = ('Trusted: Lean kernel, py2lean subset semantics, NumPy slicing/reshape/any/where semantics as modelled in '
               'Model/Geometry.lean, float sqrt/sin/cos (model run at Float, tolerance 1e-9; binary masks compared except where the '
               'real-valued margin to the edge is < 1e-9), generator coverage. Known finding: hex_segments(seg_gap=0, antialias=False) '
-              'shares edge pixels between neighbours. Unproven: border clearance, equal area (oracle only).')
+              'shares edge pixels between neighbours. Unproven: equal area up to edge sampling (oracle only).')
 TECHNIQUE = 'Lean 4 proof (omega/induction/Finset sums) over translator-regenerated index kernel + hand model with differential correspondence'
 GEN = ['Util', 'Helper', 'Helper20', 'Hex']
 OPS = ['C20']
@@ -34,8 +35,7 @@ RULE = ('cases: pad of 2-D arrays (all source/target sizes 1..9, every grow/shri
         'same-shape/identity case')
 TRUSTED = ['NumPy slicing, reshape(...).sum, np.any/np.where, np.clip/np.minimum semantics as modelled by hand in Model/Geometry.lean',
            'libm sqrt/sin/cos agree with NumPy to 1e-9 (drawn shapes are compared with the model run at Float)']
-UNPROVEN = ['hex_segments: aperture clear of the array border (checked on the real code by the oracle only)',
-            'hex_segments: equal segment area up to edge sampling (oracle only)']
+UNPROVEN = [            'hex_segments: equal segment area up to edge sampling (oracle only)']
 ASSUMPTIONS = ['shape parameters, shifts and radii are dyadic rationals of moderate size so that mesh coordinates are exact in float64',
                'non-overlap is judged on non-antialiased masks; seg_gap = 0 is the recorded known finding KF-C20-hex-gap0-shared-edge']
 
